@@ -385,6 +385,10 @@ func (p *AmazonCognitoProvider) ValidateGroupMembership(email string, allowedGro
 			return nil, err
 		}
 
+		// the directory's answer replaces whatever was collected from the (partly
+		// populated) cache above, so that no group is reported twice and a cached
+		// membership the directory no longer confirms is not reported at all
+		matchingGroups = []string{}
 		for _, allowedGroup := range allowedGroups {
 			for _, group := range groupMembership {
 				if allowedGroup == group {
